@@ -21,6 +21,9 @@ pub enum Input {
     TmplMutated { group: Group, style: u64, mutations: Vec<Mutation> },
     SheetSoup(String),
     SheetMutated { seed: u16, mutations: Vec<Mutation> },
+    /// a sheet of the grammar-based stylesheet generator (imports, :host rules, every prelude kind), printed in varied
+    /// concrete syntax and span-mutated
+    SheetGenerated { sheet: crate::model::css::Sheet, style: u64, mutations: Vec<Mutation> },
     /// entity-like sequences (`&` + up to 5 characters of mixed classes + optional `;`) in text and attribute values
     EntitySoup(Vec<Vec<u8>>),
     /// one construct repeated / nested n <= 64 times (the property's depth bound): chains and nests of every bracket,
@@ -110,6 +113,7 @@ pub fn materialise(c: &Case) -> (char, String) {
         }
         Input::SheetSoup(s) => ('s', s.clone()),
         Input::SheetMutated { seed, mutations } => ('s', soup::apply(SHEET_SEEDS[*seed as usize % SHEET_SEEDS.len()], mutations, soup::WXSS_ALPHABET)),
+        Input::SheetGenerated { sheet, style, mutations } => ('s', soup::apply(&crate::model::css::print(sheet, *style).text, mutations, soup::WXSS_ALPHABET)),
         Input::EntitySoup(items) => {
             let mut t = String::from("<view title=\"");
             for (i, it) in items.iter().enumerate() {
@@ -247,6 +251,7 @@ impl PropCheck for C01 {
             3 => (gen::wxml::group(&wc), any::<u64>(), proptest::collection::vec(soup::mutation(), 0..5)).prop_map(|(group, style, mutations)| Input::TmplMutated { group, style, mutations }),
             2 => soup::soup(soup::WXSS_ALPHABET, 120).prop_map(Input::SheetSoup),
             2 => (any::<u16>(), proptest::collection::vec(soup::mutation(), 0..6)).prop_map(|(seed, mutations)| Input::SheetMutated { seed, mutations }),
+            2 => ({ let mut c = gen::css::CssCfg::new(); c.hosts = true; c.imports = true; gen::css::sheet(&c) }, any::<u64>(), prop_oneof![2 => Just(vec![]), 1 => proptest::collection::vec(soup::mutation(), 1..4)]).prop_map(|(sheet, style, mutations)| Input::SheetGenerated { sheet, style, mutations }),
             1 => proptest::collection::vec(proptest::collection::vec(any::<u8>(), 0..6), 1..12).prop_map(Input::EntitySoup),
             1 => (any::<u8>(), 1u8..=64, any::<u8>()).prop_map(|(shape, n, op)| Input::Ramp { shape, n, op }),
         ];
